@@ -190,6 +190,54 @@ def run(ctx):
                            "of the database file as soon as it is opened, i.e. before a "
                            "foreign or newer-version file is rejected" % (
                                nm, e["stmt"].extra["value"]))
+    # R19.scope: the entry points touch the database file, its scratch file and
+    # its backup -- nothing else in the directory
+    ctx.rule("R19.scope", "file-system mutations target only dbfile, the mkstemp scratch "
+             "file and names built from dbfile by concatenation")
+    PATH_CALLS = ("tempfile.mkstemp", "os.path.join", "os.path.dirname", "os.path.basename",
+                  "os.path.abspath", "str", ".format", "os.path.split", "os.fspath")
+    nsc = 0
+    seen_sc = set()
+    for en in model.DB_ENTRIES:
+        for p in model.paths(en):
+            for (k, e, loops) in fs_events(p):
+                if k not in ("rename", "copy", "fsother"):
+                    continue
+                for a in e["args"]:
+                    if not isinstance(a, tuple) or a[0] in ("const",):
+                        continue
+                    if a[0] not in ("param", "binop", "call", "item", "sub", "elem"):
+                        continue
+                    nsc += 1
+                    # calls applied to the path text (values read from the database,
+                    # such as the version in the backup name, are not paths)
+                    def _pathcalls(t, out):
+                        if not isinstance(t, tuple) or not t:
+                            return
+                        if t[0] in ("conn", "cursor", "row", "rows", "dbcur"):
+                            return
+                        if t[0] == "call" and t[1] not in PATH_CALLS and (
+                                mentions(t, lambda x: x == DBFILE) and not mentions(
+                                    t, lambda x: x[0] == "conn")):
+                            out.append(t)
+                        for x in t:
+                            if isinstance(x, tuple):
+                                _pathcalls(x, out)
+                    odd = []
+                    _pathcalls(a, odd)
+                    pathlike = mentions(a, lambda x: x == DBFILE) or mentions(
+                        a, lambda x: x[0] == "call" and x[1] == "tempfile.mkstemp")
+                    ok = pathlike and not odd
+                    key = (e["site"][:2], ok)
+                    if key in seen_sc:
+                        continue
+                    seen_sc.add(key)
+                    ctx.ob("R19.scope", "%s: %s(%s)" % (e["func"], e["name"], show(a)[:50]),
+                           ok, e, "" if ok else "the call changes a file that is neither the "
+                           "database, its scratch file nor its backup (%s): other files in "
+                           "the directory -- another database among them -- can be removed or "
+                           "overwritten" % (odd[0][1] if odd else show(a)[:40]))
+    ctx.require("R19.scope", nsc, 2, "file-system mutations on database entry paths")
     ctx.require("R19.ro", npr, 2, "PRAGMA statements on open paths")
     ctx.require("R19.new", nnew, 2, "creation paths")
     ctx.require("R19.open", nopen, 4, "connect(dbfile) sites on paths")
